@@ -109,7 +109,7 @@ def make_case(args):
     dirs = None
     order = "1d"
     if not oned:
-        dirs, order = gen.gen_dirs(rng, nd, order=rng.choice(["sorted", "sorted", "rotated", "reversed"]), exact=exact)
+        dirs, order = gen.gen_dirs(rng, nd, order=rng.choice(["sorted", "sorted", "rotated", "reversed", "seam"]), exact=exact)
     dtype = "float64" if exact or rng.random() < 0.6 else "float32"
     nextra = rng.choice([0, 0, 1, 2])
     names = rng.sample(["time", "site", "lat"], nextra)
